@@ -130,31 +130,32 @@ theorem Chan.recv_underflow_iff (w : World) (o : Nat) (s : ChanSt) (h : w.getCha
 /-! ## 3. blocking and waking -/
 
 /-- `C09.branchThreads`, the thread table `branch` hands to `Execution::schedule`, spelled out:
-the active thread gets the operation and, if `block`, the state `Blocked`; no other thread
-changes; `branch` is `schedule` on that table. -/
-theorem Chan.branch_spelled_out (w : World) (obj : Nat) (act : Action) (block : Bool) :
-    w.branch obj act block =
-      (({ w.exec with threads := branchThreads w obj act block }).schedule w.panicking >>=
+the active thread gets the operation (with its `blocking` flag `wait`: the operation waits for the object, as
+`recv` does, or is an attempt) and, if `block`, the state `Blocked`; no other thread changes; `branch` is
+`schedule` on that table. -/
+theorem Chan.branch_spelled_out (w : World) (obj : Nat) (act : Action) (block wait : Bool) :
+    w.branch obj act block wait =
+      (({ w.exec with threads := branchThreads w obj act block wait }).schedule w.panicking >>=
         fun r => pure { w with exec := r.1 }) ∧
     (ActiveOk w.ths →
-      (branchThreads w obj act block).activeT.operation = some ⟨obj, act⟩ ∧
-      (branchThreads w obj act block).activeT.state =
+      (branchThreads w obj act block wait).activeT.operation = some ⟨obj, act, wait⟩ ∧
+      (branchThreads w obj act block wait).activeT.state =
         if block then .blocked else w.ths.activeT.state) ∧
-    (∀ i, i ≠ w.ths.activeId → (branchThreads w obj act block).get i = w.ths.get i) :=
-  ⟨branch_eq w obj act block, branchThreads_active w obj act block,
-    branchThreads_other w obj act block⟩
+    (∀ i, i ≠ w.ths.activeId → (branchThreads w obj act block wait).get i = w.ths.get i) :=
+  ⟨branch_eq w obj act block wait, branchThreads_active w obj act block wait,
+    branchThreads_other w obj act block wait⟩
 
 /-- **C09.3.**  Stage 0 of `recv` is `branch_disable(MsgRecv, is_empty)`: the receiver enters the
 scheduler `Blocked` iff `msg_cnt = 0` at that instant (and otherwise in the state it had). -/
 theorem Chan.recv_blocks_iff_empty (w : World) (c : TCtl) (qi : Nat) (s : ChanSt)
     (hc : c.stage = 0) (h : w.getChan (w.chanObj qi) = .ok s) :
     w.runOp c (.recv qi) =
-      (w.setStage 1).branch (w.chanObj qi) .chanRecv (block := s.msgCnt == 0) ∧
+      (w.setStage 1).branch (w.chanObj qi) .chanRecv (block := s.msgCnt == 0) (wait := true) ∧
     (ActiveOk w.ths →
-      (branchThreads (w.setStage 1) (w.chanObj qi) .chanRecv (s.msgCnt == 0)).activeT.state =
+      (branchThreads (w.setStage 1) (w.chanObj qi) .chanRecv (s.msgCnt == 0) true).activeT.state =
         if s.msgCnt = 0 then .blocked else w.ths.activeT.state) := by
   refine ⟨runOp_recv_stage0 w c qi s hc h, fun hact => ?_⟩
-  have := (branchThreads_active (w.setStage 1) (w.chanObj qi) .chanRecv (s.msgCnt == 0) hact).2
+  have := (branchThreads_active (w.setStage 1) (w.chanObj qi) .chanRecv (s.msgCnt == 0) true hact).2
   rw [this]
   by_cases h0 : s.msgCnt = 0 <;> simp [h0]
 
@@ -208,8 +209,9 @@ theorem Chan.recv_blocks_others {w w' : World} {o : Nat} {v : Int} {s : ChanSt}
 /-- **C09.4.**  Stage 0 of `try_recv`: on an empty channel it completes at once with `Empty`
 and — this is the root of finding F7 — performs NO branch point: the execution state (path,
 thread table with every thread's pending operation and DPOR clock, objects with their last-access
-records) is untouched, only the interpreter's program counter advances.  On a non-empty channel,
-and at every later stage, it is `recv`. -/
+records) is untouched, only the interpreter's program counter advances.  On a non-empty channel it is the
+branch point of `recv`, recorded as an ATTEMPT (`blocking = false`; `recv` itself records `blocking = true`;
+neither blocks there), and at every later stage it is `recv`. -/
 theorem Chan.try_recv_exact (w : World) (c : TCtl) (qi : Nat) (s : ChanSt)
     (h : w.getChan (w.chanObj qi) = .ok s) :
     (c.stage = 0 → s.msgCnt = 0 →
@@ -218,7 +220,10 @@ theorem Chan.try_recv_exact (w : World) (c : TCtl) (qi : Nat) (s : ChanSt)
       (w.complete .empty).exec.path = w.exec.path ∧
       (w.complete .empty).ths = w.ths ∧
       (w.complete .empty).exec.objs = w.exec.objs) ∧
-    (c.stage = 0 → s.msgCnt ≠ 0 → w.runOp c (.tryRecv qi) = w.runOp c (.recv qi)) ∧
+    (c.stage = 0 → s.msgCnt ≠ 0 →
+      w.runOp c (.tryRecv qi) = (w.setStage 1).branch (w.chanObj qi) .chanRecv ∧
+      w.runOp c (.recv qi) =
+        (w.setStage 1).branch (w.chanObj qi) .chanRecv (block := false) (wait := true)) ∧
     (c.stage ≠ 0 → w.runOp c (.tryRecv qi) = w.runOp c (.recv qi)) :=
   ⟨fun hc h0 => ⟨runOp_tryRecv_stage0_empty w c qi s hc h h0, rfl, rfl, rfl, rfl⟩,
    fun hc h0 => runOp_tryRecv_stage0_nonempty w c qi s hc h h0,
